@@ -89,7 +89,7 @@ func convertEnumCaseStringKind(value interface{}, caseSensitive bool) *string {
 		return nil
 	}
 
-	str := fmt.Sprintf("%v", value)
+	str := val.String() // the content of the string, not what a String() method prints
 	return &str
 }
 
